@@ -63,7 +63,7 @@ G12sBad(r) ==
         IN IF ~G12sSigInRange(rs2[1], rs2[2], q) THEN x.rc # 0
            \* e and q - e give opposite points C, hence the same abscissa: the equation accepts both (anchor g12s_A1_negated_hash)
            ELSE IF x.sig = r.sig /\ x.pub = r.pub /\ (Eq(e2, e) \/ Eq(Add(e2, e), q)) THEN x.rc = r.rcVerify
-           ELSE IF ~EB!IsOnCurve(E, Q2[1], Q2[2]) THEN TRUE                       \* outside the precondition of Verify
+           ELSE IF x.pub # r.pub /\ ~EB!IsOnCurve(E, Q2[1], Q2[2]) THEN TRUE        \* outside the precondition of Verify
            ELSE IF HeavyAlt(r, i) THEN (x.rc = 0) = G12sVerifyEq(E, P, q, e2, rs2[1], rs2[2], Q2)
            ELSE x.rc # 0
   IN IF r.rcStd # 0 THEN {0}
@@ -148,7 +148,7 @@ DstuBad(r) ==
         IN IF ~DstuLdOk(x.ld, n) THEN x.rc # 0
            ELSE IF ~p2[3] \/ ~DstuSigInRange(p2[1], p2[2], n) THEN x.rc # 0
            ELSE IF Eq(p2[1], parts[1]) /\ Eq(p2[2], parts[2]) /\ x.pub = r.pub /\ PEq(DstuH(x.hash, m), h) THEN x.rc = r.rcVerify
-           ELSE IF ~E2OnCurve(C, Q2[1], Q2[2]) THEN TRUE                          \* outside the precondition of Verify
+           ELSE IF x.pub # r.pub /\ ~E2OnCurve(C, Q2[1], Q2[2]) THEN TRUE           \* outside the precondition of Verify
            ELSE IF HeavyAlt(r, i) THEN (x.rc = 0) = DstuVerifyEq(C, P, n, DstuH(x.hash, m), p2[1], p2[2], Q2)
            ELSE x.rc # 0
   IN IF r.rcStd # 0 THEN {0}
@@ -200,14 +200,12 @@ PfokBad(r) ==
 Gf2Bad(r) ==
   LET F == DstuField(r.f)
       m == r.f[1]
-      cnt == 2 ^ m
-  IN IF r.rc # 0 THEN {0}
-     ELSE {x \in 0..(cnt - 1) : r.tr[x + 1] # GTr(<<x>>, F)}
-          \cup {100000 + x : x \in {x \in 0..(cnt - 1) :
-                  IF m % 2 = 0 THEN r.qs[x + 1] # -1
-                  ELSE IF GTr(<<x>>, F) = 1 THEN r.qs[x + 1] # -1
-                  ELSE r.qs[x + 1] < 0 \/ r.qs[x + 1] >= cnt
-                       \/ ~PEq(PAdd(GSqr(<<r.qs[x + 1]>>, F), <<r.qs[x + 1]>>), <<x>>)}}
+      elOk(e) == LET x == PNorm(POfOct(e.x))  z == PNorm(POfOct(e.z))  t == GTr(x, F)
+                 IN /\ e.tr = t
+                    /\ IF m % 2 = 0 THEN TRUE
+                       ELSE IF t = 1 THEN e.ok = 0                                  \* z^2 + z = x has no solution
+                       ELSE e.ok = 1 /\ PDeg(z) < m /\ PEq(PAdd(GSqr(z, F), z), x)
+  IN IF r.rc # 0 THEN {0} ELSE {i \in 1..Len(r.els) : ~elOk(r.els[i])}
 
 Bad(r) ==
   CASE r.op = "g12s" -> G12sBad(r)
